@@ -21,22 +21,12 @@ EntityTranslation rsOperationFacet::MergeWith(const RSForm& schema2) {
     insertionOrder.emplace_back(entity);
   }
 
-  StrSubstitutes contextReplace{};
+  // Note: bulk insertion translates every inserted constituent once with the complete alias mapping
+  const auto inserted = core.InsertCopy(insertionOrder, schema2.Core());
   EntityTranslation equateParams{};
-  SetOfEntities inserted{};
-  for (const auto entity : insertionOrder) {
-    const auto& etalon = schema2.GetRS(entity);
-    const auto& newCst = core.GetRS(core.InsertCopy(entity, schema2.Core()));
-    contextReplace.insert({ etalon.alias, newCst.alias });
-    inserted.insert(newCst.uid);
-    equateParams.Insert(entity, newCst.uid);
+  for (size_t i = 0; i < size(insertionOrder); ++i) {
+    equateParams.Insert(insertionOrder.at(i), inserted.at(i));
   }
-
-  const auto mapping = CreateTranslator(contextReplace);
-  for (const auto entity : inserted) {
-    core.core.Translate(entity, mapping);
-  }
-  core.NotifyModification();
   return equateParams;
 }
 
